@@ -3,7 +3,7 @@
    rule_expand_macro_invocations / invoke_macro / body_items_rename_macro_originated_vars, identifiers carry an origin
    tag = the model's counterpart of a token span; hygienic reference expansion [hexpand_rule]: every invocation gets a
    scope number, all identifiers of the macro body are stamped with it, parameters are replaced by the actuals, which keep
-   their scopes, nothing is renamed); proofs in Macros/MacroSim.v, MacroNested.v, MacroProofs.v, MacroErrors.v, MacroRefuted.v.
+   their scopes, nothing is renamed); proofs in Macros/MacroSim.v, MacroNested.v, MacroProofs.v, MacroErrors.v, MacroRefuted.v, MacroDisj.v.
 
    LEVEL: alpha-equivalence of rules (syntactic).  [hygienic_image r' h phi] says that the real expansion r' IS the
    reference expansion h in which the scoped identifier (iname, isc) is spelled [phi iname isc], with phi injective on the
@@ -19,6 +19,7 @@ From AV Require Import Macros.MacroModel.
 From AV Require Import Macros.MacroProofs.
 From AV Require Import Macros.MacroErrors.
 From AV Require Import Macros.MacroRefuted.
+From AV Require Import Macros.MacroDisj.
 Import ListNotations.
 
 (* Hypotheses (all decidable, computed by the tie for every generated program; Macros/MacroModel.v):
@@ -126,6 +127,32 @@ Theorem c08_early_renaming_variant_not_hygienic :
   /\ exists r' h, expand_rule_early M_two r_two = OK r' /\ hexpand_rule M_two r_two = OK h /\ ~ exists phi, hygienic_image r' h phi.
 Proof. exact refuted_rename_before_nested_expansion. Qed.
 
+(* ---- disjunctions inside macro bodies are inside the theorem (wf_def_bound counts the binding positions of every disjunct,
+   at any depth: MacroModel.bv_item, arm IDisj).  The renaming pass collects the bound variables of the expanded items ONE
+   ENTRY PER OCCURRENCE and decides per occurrence, from its origin (span), whether the spelling is renamed: a spelling is
+   renamed iff SOME binding occurrence of it was written in the macro body — whatever else is spelled alike, e.g. a call-site
+   identifier that came in through a parameter and stands before it in the same disjunction. *)
+Theorem c08_renaming_decided_per_occurrence : forall m l s,
+  In s (originated m l) <-> exists i, In i (bv_items l) /\ org_is m i = true /\ iname i = s.
+Proof. exact originated_iff. Qed.
+(* On  macro m0($p0: ident) { (e0($p0, t), u0(t) | u1($p0)) }   d1(s) <-- m0!(s);   the local t — bound only inside the
+   disjunction, after the parameter — gets a name of its own for EVERY call-site spelling s, s = "t" included ... *)
+Example c08_disjunction_local_renamed : forall s,
+  expand_rule M_dj (r_dj s) =
+    OK (mkRule [HClause 4 [TV (cs s)]]
+               [IDisj [[IClause 0 [TV (cs s); TV (VId (mkId "__t_" (OMac 0) 0))] []; IClause 1 [TV (VId (mkId "__t_" (OMac 0) 0))] []];
+                       [IClause 2 [TV (cs s)] []]]]).
+Proof. exact disj_local_renamed. Qed.
+(* ... whereas the variant [expand_rule_uniq] (Macros/MacroDisj.v), whose collector reports every spelling of a disjunction
+   once, the first occurrence standing for the others (identifier equality ignores the span), is NOT hygienic on that table
+   with s = "t": the call-site occurrence comes first, no occurrence with the macro's origin is left, nothing is renamed and
+   the local is captured.  (A statement about a variant of the model, not about the code; the tie runs the family
+   gen/c08_disj.py — 17 macro shapes x 8 rule shapes with one spelling bound with two origins — on every check.) *)
+Theorem c08_disjunction_dedup_variant_not_hygienic :
+  wf_macros (fun m => m) [] M_dj = true /\ wf_rule [] (r_dj "t") = true
+  /\ exists r' h, expand_rule_uniq M_dj (r_dj "t") = OK r' /\ hexpand_rule M_dj (r_dj "t") = OK h /\ ~ exists phi, hygienic_image r' h phi.
+Proof. exact refuted_disjunction_dedup. Qed.
+
 (* ---- the hypotheses are satisfiable on a non-trivial table: nested macros, one macro invoked twice in a rule and once more
    inside another macro, the spelling z used at the call site, in the outer and in the inner macro, an invocation inside a
    disjunction, a condition attached to a clause of a macro body, nested head macros *)
@@ -152,3 +179,5 @@ Print Assumptions c08_hygiene_refuted_unbound_identifier.
 Print Assumptions c08_hypotheses_satisfiable. Print Assumptions c08_recursive_example.
 Print Assumptions c08_bound_direct_weaker. Print Assumptions c08_nested_binder_example.
 Print Assumptions c08_early_renaming_variant_not_hygienic.
+Print Assumptions c08_renaming_decided_per_occurrence. Print Assumptions c08_disjunction_local_renamed.
+Print Assumptions c08_disjunction_dedup_variant_not_hygienic.
